@@ -184,6 +184,10 @@ class Check(PropertyCheck):
     parallel = True
     _cache = (None, None)
 
+    def setup(self, tier):
+        # forked workers pay seconds of copy-on-write warm-up each: single process for the quick tier
+        self.parallel = tier == "thorough"
+
     # ------------------------------------------------------------------ generation
     def generate(self, rng, tier):
         shapes = [("http", 0, 0), ("http", 1, 0), ("http", 0, 1), ("ws", 1, 0), ("tcp", 0, 0), ("tcp", 0, 1),
